@@ -318,7 +318,7 @@ def choose_point_in_triangle(triangle: np.ndarray, max_badness: int) -> np.ndarr
     a, b, c = triangle
     # z-component of the cross product (np.cross no longer accepts 2-D vectors)
     (ux, uy), (vx, vy) = b - a, c - a
-    area = 0.5 * (ux * vy - uy * vx)
+    area = 0.5 * abs(ux * vy - uy * vx)
     triangle_roll = np.roll(triangle, 1, axis=0)
     edge_lengths = np.linalg.norm(triangle - triangle_roll, axis=1)
     i = edge_lengths.argmax()
